@@ -2,6 +2,7 @@
 """Regenerate benign/INDEX.md from benign/<ID>/meta.json and falsealarm.json."""
 import json, glob, os
 rows = []
+KNOWN = set(l.split('key=')[1].split()[0] for l in open('/verif/known_findings.txt') if l.startswith('finding:') and 'key=' in l)
 for d in sorted(glob.glob('/verif/benign/C*/')):
     pid = os.path.basename(d.rstrip('/'))
     try:
@@ -17,7 +18,7 @@ for d in sorted(glob.glob('/verif/benign/C*/')):
         summ = (pats.get(b, {}).get('summary') or '').replace('\n', ' ').replace('|', '/')[:230]
         res = fa.get(b, {})
         ran = [k for k in res if not k.startswith('_')]
-        alarms = {k: v['keys'] for k, v in res.items() if not k.startswith('_') and v.get('violations')}
+        alarms = {k: [x for x in v['keys'] if x not in KNOWN] for k, v in res.items() if not k.startswith('_') and [x for x in v.get('keys', []) if x not in KNOWN]}
         mach = {k: v['machinery_error'] for k, v in res.items() if not k.startswith('_') and v.get('machinery_error')}
         rows.append(f"| {pid}/{b} | {summ} | {', '.join(ran) or '-'} | {json.dumps(alarms) if alarms else 'none'} | {json.dumps(mach) if mach else ''} |")
 open('/verif/benign/INDEX.md', 'w').write(
